@@ -14,7 +14,7 @@ EXPLANATION = ("Meshes with symbolic real coordinates (and symbolic translation 
 BOUNDS = {
     "quick": "concrete-coordinate histories (copy / merge / boundary extraction / reorder, then translate by a vector or by one of the mesh's "
              "own vertices); meshes of 3-4 vertices (one/two triangles, a 2-edge polyline, one tetrahedron), the open ring with N=3; sequences of <=2 "
-             "calls among copy / merge / translate / scale / normalize, followed by one edit (assign a vertex, edit a coordinate in "
+             "calls among copy / merge / translate / scale / normalize, integer-dtype coordinates with symbolic parameters; rotate with the rotation given as matrix / Euler angles / Rotation object (twin of scipy Rotation); merges of a point cloud with a mesh; each followed by one edit (assign a vertex, edit a coordinate in "
              "place, append an element) on one of the objects",
     "thorough": "adds 3-call sequences and scale_xyz / translate_to_origin / fit_into_unit_cube",
 }
